@@ -34,6 +34,7 @@ class Emitted:
     lines: List[Line]
     kind: str  # 'buffer' | 'return'
     value: Optional[V] = None  # for kind == 'return'
+    compiled: bool = True  # buffer reaches an exec sink (or is spliced into one) on this path
 
 
 @dataclass
@@ -58,10 +59,16 @@ def _discr_obj(ev: Evaluator, p: Path) -> Obj:
 
 
 def _collect(corpus: Corpus, name: str, entry: str, ev: Evaluator, paths: List[Path], rets: bool = True):
+    helper_scenario = name.startswith(("pack.", "unpack."))
     for q in paths:
+        execd = set()
+        for ev_ in q.events:
+            if ev_ and ev_[0] == "exec" and isinstance(ev_[1], Sym) and isinstance(ev_[1].origin, tuple) and ev_[1].origin[0] == "as_text":
+                execd.add(ev_[1].origin[1])
         for bid, lines in q.bufs.items():
             if lines:
-                corpus.items.append(Emitted(name, entry, q, bid, lines, "buffer"))
+                corpus.items.append(Emitted(name, entry, q, bid, lines, "buffer",
+                                            compiled=(bid in execd) or not helper_scenario))
         if rets and q.ctl == "return" and q.retv is not None and isinstance(q.retv, (Tmpl, Sym, Const)):
             corpus.items.append(Emitted(name, entry, q, "", [], "return", q.retv))
     corpus.sites_hit |= ev.sites_hit
@@ -112,6 +119,12 @@ def run_method_scenario(repo: Repo, corpus: Corpus, name: str, cls_mod: str, cls
     return ev, out
 
 
+def m_body_placeholder(pe, fv, args, kwargs, p, e):
+    """Stub for _add_(un)pack_method_lines in the method-level scenarios: one placeholder statement."""
+    p.bufs.setdefault("main", []).append(Line(p.ind.get("main", 0), Tmpl(["return METHOD_BODY"]), (fv.fi.key, 0)))
+    return [(Const(None), p)]
+
+
 NO_DIALECT = [(r"bool\(B\.dialect\)", False), (r"bool\(B\.default_dialect\)", False),
               (r"B\.dialect is None", True), (r"B\.default_dialect is None", True)]
 WITH_DIALECT = [(r"bool\(B\.dialect\)", True), (r"bool\(B\.default_dialect\)", True),
@@ -141,13 +154,20 @@ def explore_all(repo: Repo, tier: str = "quick") -> Corpus:
     # ---- builder.py : from_dict body.  The per-field block is analysed by scenario "build";
     # here it is summarised (its lines are one marker line) so that the layout code is explored.
     def m_build(pe, fv, args, kwargs, p, e):
-        lines = pe.new_lines(p)
         fname = kwargs.get("fname", args[0] if args else Sym("fname"))
-        p.bufs[lines.bid].append(Line(0, Tmpl(["pass  # field block of ", Hole(fname)]), (fv.fi.key, 0)))
-        p.events.append(("build_call", fname, kwargs.get("alias"), kwargs.get("ftype")))
-        o = pe.new_obj(p, f"{M_BUILDER}::FieldUnpackerCodeBlock", {
-            "lines": lines, "fname": fname, "in_kwargs": Sym(f"has_default({show(fname)})")})
-        return [(o, p)]
+        out = []
+        for b, q in pe.atom(f"has_default({show(fname)})", p):
+            lines = pe.new_lines(q)
+            if b:
+                t = Tmpl(["kwargs[", Hole(fname, "r"), "] = FIELD_BLOCK_VALUE"])
+            else:
+                t = Tmpl(["__", Hole(fname), " = FIELD_BLOCK_VALUE"])
+            q.bufs[lines.bid].append(Line(0, t, (fv.fi.key, 0)))
+            q.events.append(("build_call", fname, kwargs.get("alias"), kwargs.get("ftype")))
+            o = pe.new_obj(q, f"{M_BUILDER}::FieldUnpackerCodeBlock", {
+                "lines": lines, "fname": fname, "in_kwargs": Const(b)})
+            out.append((o, q))
+        return out
 
     run_scenario(repo, c, "unpack_lines", repo.func(M_BUILDER, "CodeBuilder._add_unpack_method_lines"), s_B,
                  inline_depth=6, max_steps=steps, assume=NO_DEBUG + NO_DIALECT,
@@ -157,14 +177,16 @@ def explore_all(repo: Repo, tier: str = "quick") -> Corpus:
                  lambda ev, p: {"fname": Sym("fname", {"FIELDNAME"})}, inline_depth=2, max_steps=steps)
     run_scenario(repo, c, "unpack_method", repo.func(M_BUILDER, "CodeBuilder.add_unpack_method"),
                  lambda ev, p: {"self": ev.builder_obj(p)}, inline_depth=4, max_steps=steps,
-                 force_opaque={"_add_unpack_method_lines"}, assume=NO_DEBUG)
+                 models={f"{M_BUILDER}::CodeBuilder._add_unpack_method_lines": m_body_placeholder}, assume=NO_DEBUG,
+                 allow_inline={"get_unpack_method_default_flag_values", "get_unpack_method_flags"})
     # ---- builder.py : to_dict body
     run_scenario(repo, c, "pack_lines", repo.func(M_BUILDER, "CodeBuilder._add_pack_method_lines"), s_B,
                  inline_depth=6, max_steps=steps, assume=NO_DEBUG + [(r"is_type_var_any", False), (r"is_optional", False)],
                  force_opaque={"__get_field_alias"})
     run_scenario(repo, c, "pack_method", repo.func(M_BUILDER, "CodeBuilder.add_pack_method"),
                  lambda ev, p: {"self": ev.builder_obj(p)}, inline_depth=4, max_steps=steps,
-                 force_opaque={"_add_pack_method_lines"}, assume=NO_DEBUG)
+                 models={f"{M_BUILDER}::CodeBuilder._add_pack_method_lines": m_body_placeholder}, assume=NO_DEBUG,
+                 allow_inline={"get_pack_method_default_flag_values", "get_pack_method_flags", "_get_encoder_kwargs"})
 
     # ---- codecs/_builder.py
     for m in ("add_decode_method", "add_encode_method"):
@@ -251,3 +273,26 @@ def explore_all(repo: Repo, tier: str = "quick") -> Corpus:
                                 lambda ev, p: [_discr_obj(ev, p)], "build", spec_arg, within,
                                 inline_depth=5, max_steps=steps, assume=assume_for(cfg))
     return c
+
+
+BODY_ONLY = {"pack_lines", "unpack_lines", "build"}
+
+
+def render_item(it: Emitted):
+    """Render a corpus item as parseable Python text (hole markers); None if it is not compiled text."""
+    from .skeleton import Rendered, render, render_tmpl
+
+    r = Rendered()
+    if it.kind == "buffer":
+        if not it.compiled:
+            return None
+        base = it.scenario.split("#")[0]
+        if base == "unpack_lines" and it.bid != "main":
+            return None
+        body_only = (base in BODY_ONLY and it.bid == "main") if base != "build" else True
+        render(it.lines, wrap=body_only, r=r)
+        return r
+    if isinstance(it.value, Tmpl):
+        r.src = "_ret_ = [" + render_tmpl(it.value, r) + "]\n"
+        return r
+    return None
